@@ -133,9 +133,15 @@ where
     rep.counters.insert("runs_with_parallel_commit".into(), (par_commits > 0) as u64);
     rep.counters.insert("runs_with_retry".into(), (retries > 0) as u64);
     match res {
-        Err(a) => {
+        Err(ab) => {
             rep.outcome_class = "abort".into();
-            rep.violation = Some(abort_to_violation(&a));
+            // the commit history usually pinpoints the first bad commit behind a later panic
+            let a_or = if pt == PivotType::Rows { dm.clone() } else { dm.transpose() };
+            let v = abort_to_violation(&ab);
+            rep.violation = Some(match check_commit_history(&a_or, &stats.events) {
+                Some(h) if !v.class.starts_with("harness") => Violation::new(&h.class, format!("{}; then: {}", h.message, v.message)),
+                _ => v,
+            });
         }
         Ok((pivs, b)) => {
             rep.outcome_class = format!("{} pivots", pivs.len().min(99));
